@@ -129,7 +129,7 @@ def snapshot(top="/"):
         return e
     def walk(d):
         try:
-            names = sorted(os.listdir(d), key=os.fsencode)
+            names = sorted(os.listdir(d))        # the order of tarfile.add()
         except OSError:
             names = []
         for n in names:
@@ -375,6 +375,9 @@ Definition check_fs (fs : fsys) (lst : list (path * xent)) (n d : N) : bool :=
   forallb (check_ent fs) lst && (tree_size (f_root fs) =? 1 + n) && (distinct (tree_inos (f_root fs)) =? d).
 Definition check_extract (r : fsys * outcome * bool) (e : outcome * list (path * xent) * N * N) : bool :=
   match e with (o, lst, n, d) => outcome_eqb (snd (fst r)) o && check_fs (fst (fst r)) lst n d end.
+(* the same with the unchanged outside part of the listing factored out *)
+Definition check_extract_in (out0 : list (path * xent)) (r : fsys * outcome * bool) (e : outcome * list (path * xent) * N * N) : bool :=
+  match e with (o, lst, n, d) => outcome_eqb (snd (fst r)) o && check_fs (fst (fst r)) (out0 ++ lst) n d end.
 """
 
 
@@ -538,6 +541,9 @@ def hangs(case):
     return False
 
 
+SEVERITY = {"nlink": 1, "attrs": 2, "created": 3, "removed": 4, "content": 5}
+
+
 def signature(changes, members):
     cls = sorted(set(c for c, _ in changes))
     kinds = sorted(set(m["kind"] for m in members if m["name"].startswith("content/")))
@@ -590,30 +596,48 @@ def hostile_part(ctx, jail, cases):
         if len(case["members"]) >= 2:
             ctx.nontrivial(("hostile", json.dumps(json_case(case), sort_keys=True)))
         if fs0 is None:
-            fs0 = cfs(before)
-            out0 = outside_view(before)
+            fs0 = (cfs(before), clisting(before, only=lambda p: not allowed(p)))
         ch = diff_outside(outside_view(before), outside_view(after))
         if ch:
+            worst = max(SEVERITY[c] for c, _ in ch)
             def fails(c2):
                 o2, e2, b2, a2, _ = run_hostile(jail, c2)
-                return bool(diff_outside(outside_view(b2), outside_view(a2)))
+                ch2 = diff_outside(outside_view(b2), outside_view(a2))
+                return bool(ch2) and max(SEVERITY[c] for c, _ in ch2) >= worst
             small = shrink_members(case, fails)
             o2, e2, b2, a2, _ = run_hostile(jail, small)
             ch2 = diff_outside(outside_view(b2), outside_view(a2))
             ctx.violation(signature(ch2, small["members"]),
                           "extraction changed the file system outside workspace and audit file: %r (outcome %s)" % (ch2, o2),
                           {"kind": "hostile", "case": json_case(small), "changes": ch2, "original": json_case(case)})
-        if outcome == "extracted":
-            # an accepted hostile artifact must at least have an audit file and only classified members
-            if AUDIT not in after and any(m["name"] == "meta/audit.json.gz" for m in case["members"]):
-                ctx.violation("audit-member-not-written", "audit member present but no audit file after extraction", {"kind": "hostile", "case": json_case(case)})
+        if outcome == "extracted" and dec is not None:
+            # statement: wrong-format artifacts are never accepted (judged on what tarfile decodes, independent of the model)
+            def known(nm):
+                return nm.startswith("content/") or nm in ("meta/audit.json.gz", "content", "meta")
+            unknown = [m["name"] for m in dec[1] if not known(m["name"])]
+            if unknown:
+                ctx.violation("unknown-member-accepted", "artifact with unknown entries %r was extracted without error" % unknown[:3],
+                              {"kind": "hostile", "case": json_case(case)})
+            if dec[0] != "1":
+                ctx.violation("wrong-version-accepted", "artifact with version header %r was extracted without error" % (dec[0],),
+                              {"kind": "hostile", "case": json_case(case)})
+            if any(m["name"] == "meta/audit.json.gz" and m["kind"] == "reg" for m in dec[1]) != (AUDIT in after):
+                ctx.violation("audit-file-mismatch", "audit member present = %r but audit file present = %r after extraction" % (
+                    AUDIT not in after, AUDIT in after), {"kind": "hostile", "case": json_case(case)})
         if len(ctx.cov["samples"]) < 4:
             ctx.sample({"hostile": json_case(case), "impl": outcome, "exception": exc})
         if not modelable(case):
             ctx.count("hostile:not-modelled")
             continue
         n, d = counts(after)
-        exp = "(%s, %s, %d, %d)" % ("Extracted" if outcome == "extracted" else "Rejected", clisting(after), n, d)
+        if ch:
+            # outside changed (a violation was reported): the model is still compared on the whole jail
+            exp = "(%s, %s, %d, %d)" % ("Extracted" if outcome == "extracted" else "Rejected",
+                                        clisting(after, only=lambda p: allowed(p) or p not in before or
+                                                 outside_view({p: after[p]}) != outside_view({p: before[p]})), n, d)
+            ctx.count("hostile:outside-changed")
+        else:
+            exp = "(%s, %s, %d, %d)" % ("Extracted" if outcome == "extracted" else "Rejected", clisting(after, only=allowed), n, d)
         if dec is None:
             ctx.count("hostile:undecodable")
             continue
@@ -625,9 +649,11 @@ def hostile_part(ctx, jail, cases):
 def eval_hostile(ctx, coq_cases, meta, fs0, tag):
     if not coq_cases:
         return
-    pre = PREAMBLE + "Definition fs0 : fsys := %s.\nDefinition AUDITP : path := %s.\nDefinition DEST : path := %s.\n" % (fs0, cpath(AUDIT), cpath(WS))
-    bad, log = coq.run_cases(ctx, ["BobV.C08.Model"], "(fun a => bob_extract %d%%nat fs0 AUDITP DEST a)" % FUEL, "check_extract",
-                             coq_cases, preamble=pre, tag=tag, shard=150)
+    fs0, out0 = fs0
+    pre = PREAMBLE + "Definition fs0 : fsys := %s.\nDefinition AUDITP : path := %s.\nDefinition DEST : path := %s.\nDefinition out0 : list (path * xent) := %s.\n" % (
+        fs0, cpath(AUDIT), cpath(WS), out0)
+    bad, log = coq.run_cases(ctx, ["BobV.C08.Model"], "(fun a => bob_extract %d%%nat fs0 AUDITP DEST a)" % FUEL, "(check_extract_in out0)",
+                             coq_cases, preamble=pre, tag=tag, shard=50)
     if bad is None:
         ctx.tie_broken("C08 model evaluation failed (%s)" % tag, log)
         return
@@ -638,10 +664,642 @@ def eval_hostile(ctx, coq_cases, meta, fs0, tag):
         ctx.count("hostile:model-mismatch", len(bad))
 
 
+# ------------------------------------------------------------------ (B) lossless round trip
+SHA_PRE = r"""
+Definition w32 : N := 4294967296.
+Definition add32 (a b : N) : N := (a + b) mod w32.
+Definition rotl (x n : N) : N := N.lor ((N.shiftl x n) mod w32) (N.shiftr x (32 - n)).
+Definition not32 (x : N) : N := N.lxor x 4294967295.
+Fixpoint be_bytes (k : nat) (n : N) : list N :=
+  match k with O => [] | S k' => be_bytes k' (n / 256) ++ [n mod 256] end.
+Definition sha_pad (msg : list N) : list N :=
+  let l := N.of_nat (length msg) in
+  let z := (64 - ((l + 9) mod 64)) mod 64 in
+  msg ++ [128] ++ repeat 0 (N.to_nat z) ++ be_bytes 8 (8 * l).
+Fixpoint words (fuel : nat) (l : list N) : list N :=
+  match fuel with O => [] | S f =>
+    match l with a :: b :: c :: d :: r => (((a * 256 + b) * 256 + c) * 256 + d) :: words f r | _ => [] end end.
+Fixpoint sched (n : nat) (win : list N) : list N :=
+  match n with O => [] | S n' =>
+    let x := rotl (N.lxor (N.lxor (nth 13 win 0) (nth 8 win 0)) (N.lxor (nth 2 win 0) (nth 0 win 0))) 1 in
+    x :: sched n' (tl win ++ [x]) end.
+Definition sha_f (t : nat) (b c d : N) : N * N :=
+  if Nat.ltb t 20 then (N.lor (N.land b c) (N.land (not32 b) d), 1518500249)
+  else if Nat.ltb t 40 then (N.lxor (N.lxor b c) d, 1859775393)
+  else if Nat.ltb t 60 then (N.lor (N.lor (N.land b c) (N.land b d)) (N.land c d), 2400959708)
+  else (N.lxor (N.lxor b c) d, 3395469782).
+Fixpoint rounds (ws : list N) (t : nat) (s : N * N * N * N * N) : N * N * N * N * N :=
+  match ws with [] => s | w :: r =>
+    let '(a, b, c, d, e) := s in
+    let '(f, k) := sha_f t b c d in
+    let tmp := add32 (add32 (add32 (add32 (rotl a 5) f) e) k) w in
+    rounds r (S t) (tmp, a, rotl b 30, c, d) end.
+Fixpoint blocks (fuel : nat) (l : list N) (h : N * N * N * N * N) : N * N * N * N * N :=
+  match fuel with O => h | S f =>
+    match l with [] => h | _ =>
+      let w16 := words 16 (firstn 64 l) in
+      let ws := w16 ++ sched 64 w16 in
+      let '(a, b, c, d, e) := rounds ws 0 h in
+      let '(h0, h1, h2, h3, h4) := h in
+      blocks f (skipn 64 l) (add32 h0 a, add32 h1 b, add32 h2 c, add32 h3 d, add32 h4 e) end end.
+Definition sha1 (msg : list N) : list N :=
+  let p := sha_pad msg in
+  let '(a, b, c, d, e) := blocks (S (Nat.div (length p) 64)) p (1732584193, 4023233417, 2562383102, 271733878, 3285377520) in
+  be_bytes 4 a ++ be_bytes 4 b ++ be_bytes 4 c ++ be_bytes 4 d ++ be_bytes 4 e.
+
+Definition mkind_eqb (a b : mkind) : bool :=
+  match a, b with MReg, MReg | MDir, MDir | MSym, MSym | MLnk, MLnk | MFifo, MFifo | MChr, MChr | MBlk, MBlk => true | _, _ => false end.
+Definition member_eqb (a b : member) : bool :=
+  eqb_str (m_name a) (m_name b) && mkind_eqb (m_kind a) (m_kind b) && eqb_str (m_link a) (m_link b)
+  && (m_mode a =? m_mode b) && eqb_str (m_data a) (m_data b).
+Definition artifact_eqb (a b : option artifact) : bool :=
+  match a, b with
+  | Some x, Some y => eqb_option eqb_str (a_pax x) (a_pax y) && eqb_list member_eqb (a_members x) (a_members y)
+                      && Bool.eqb (a_tail_ok x) (a_tail_ok y)
+  | None, None => true
+  | _, _ => false
+  end.
+Definition SRC_AUDIT : path := [[115;114;99]; [97;117;100;105;116;46;106;115;111;110;46;103;122]].
+Definition SRC_CONTENT : path := [[115;114;99]; [99;111;110;116;101;110;116]].
+(* a lossless case: (source fs, world fs) ; expected: (members of the real artifact, hash of the source,
+   listing/counts of the world after the real extraction, hash of the extracted tree) *)
+Definition check_lossless (i : fsys * fsys)
+    (e : option artifact * list N * (list (path * xent) * N * N) * list N) : bool :=
+  match e with
+  | (art, hsrc, (lst, n, d), hdst) =>
+    artifact_eqb (pack (fst i) SRC_AUDIT SRC_CONTENT) art
+    && eqb_option eqb_str (hash_dir sha1 (fst i) SRC_CONTENT) (Some hsrc)
+    && match art with
+       | Some a =>
+         let r := bob_extract FUELN (snd i) AUDITP DEST a in
+         outcome_eqb (snd (fst r)) Extracted && check_fs (fst (fst r)) lst n d
+         && eqb_option eqb_str (hash_dir sha1 (fst (fst r)) DEST) (Some hdst)
+       | None => false
+       end
+  end.
+"""
+
+NASTY_NAMES = ["ä ö", "日本語", "\U0001F600", "sp ace", "$(touch x)", "`id`", "a;b", "a&b|c", "'q'", '"dq"', "back\\slash",
+               "new\nline", "tab\there", "-rf", "*", "?", ".hidden", "...", "a.", "CON", "content", "meta", "audit.json.gz",
+               "x" * 120, "é" * 90, ".git", ".svn", "BaseDirList.txt", "%s", "{}", "~", "#c", "a=b", "\x7f", "\x01ctl", " lead", "trail "]
+FILE_MODES = [0o644, 0o755, 0o600, 0o444, 0o400, 0o000, 0o4755, 0o2755, 0o1644, 0o664, 0o777]
+DIR_MODES = [0o755, 0o700, 0o555, 0o500, 0o1777, 0o2775, 0o750, 0o000 | 0o700]
+
+
+def gen_tree(rng, small):
+    """list of (relpath, kind, attrs) in creation order"""
+    ents = []
+    names_used = set()
+    dirs = [""]
+    n = rng.randint(0, 9) if small else rng.randint(0, 40)
+    files = []
+    def fresh(d):
+        for _ in range(20):
+            nm = rng.choice(NASTY_NAMES) if rng.random() < 0.45 else rng.choice("abcdefgh") + str(rng.randrange(100))
+            if rng.random() < 0.04:
+                nm = os.fsdecode(bytes([0xff, 0xfe, rng.randrange(0x80, 0x100)]) + b"bin")
+            if small and len(os.fsencode(nm)) > 40:
+                continue
+            p = (d + "/" + nm) if d else nm
+            if p not in names_used and len(os.fsencode(p)) < 900:
+                names_used.add(p)
+                return p
+        p = (d + "/n%d" % len(names_used)) if d else "n%d" % len(names_used)
+        names_used.add(p)
+        return p
+    for _ in range(n):
+        d = rng.choice(dirs)
+        r = rng.random()
+        p = fresh(d)
+        if r < 0.25 and d.count("/") < 4:
+            ents.append((p, "dir", {"mode": rng.choice(DIR_MODES)}))
+            if not os.path.basename(p) in (".git", ".svn"):
+                dirs.append(p)
+            else:
+                dirs.append(p)
+        elif r < 0.60:
+            size = rng.choice([0, 1, 5, 20, 40]) if small else rng.choice([0, 1, 10, 100, 511, 512, 513, 1024, 5000, 70000])
+            data = bytes(rng.getrandbits(8) for _ in range(size)) if size < 2000 else rng.randbytes(size)
+            ents.append((p, "reg", {"mode": rng.choice(FILE_MODES), "data": data}))
+            files.append(p)
+        elif r < 0.78:
+            tgt = rng.choice(["nowhere", "..", "../..", "/", "/etc/passwd", ".", "ä ö", "a b/c", "x" * (30 if small else 200), "../content",
+                              os.path.basename(rng.choice(files)) if files else "f", rng.choice(dirs) or "."])
+            ents.append((p, "sym", {"link": tgt}))
+        elif r < 0.92 and files:
+            ents.append((p, "hard", {"to": rng.choice(files)}))
+            files.append(p)
+        elif r < 0.96:
+            ents.append((p, "fifo", {"mode": rng.choice([0o644, 0o600])}))
+        else:
+            ents.append((p, rng.choice(["chr", "blk"]), {"mode": rng.choice([0o644, 0o600, 0o660])}))
+    return ents
+
+
+def build_tree(root, ents):
+    os.makedirs(root)
+    later = []
+    for p, kind, at in ents:
+        fp = os.path.join(root, p)
+        if kind == "dir":
+            os.mkdir(fp)
+            later.append((fp, at["mode"]))
+        elif kind == "reg":
+            with open(fp, "wb") as f:
+                f.write(at["data"])
+            os.chmod(fp, at["mode"])
+        elif kind == "sym":
+            os.symlink(at["link"], fp)
+        elif kind == "hard":
+            os.link(os.path.join(root, at["to"]), fp)
+        elif kind == "fifo":
+            os.mkfifo(fp)
+            os.chmod(fp, at["mode"])
+        else:
+            os.mknod(fp, (stat.S_IFCHR if kind == "chr" else stat.S_IFBLK) | at["mode"], os.makedev(*DEVNUM[kind]))
+            os.chmod(fp, at["mode"])
+    for fp, mode in reversed(later):
+        os.chmod(fp, mode)
+
+
+def archive_path(bid):
+    from bob.archive import buildIdToName
+    n = buildIdToName(bid)
+    return "/arch/%s/%s/%s.tgz" % (n[0:2], n[2:4], n[4:])
+
+
+def post_download_check(audit, content):
+    """builder.py after a successful downloadPackage(): audit present, recorded result hash = hash of workspace.
+    The same library calls as builder.py; returns (accepted, reason)"""
+    from bob.utils import hashDirectory
+    from bob.audit import Audit
+    if not os.path.exists(audit):
+        return False, "missing-audit"
+    h = hashDirectory(content, os.path.join(os.path.dirname(content), "cache.bin"))
+    if Audit.fromFile(audit).getArtifact().getResultHash() != h:
+        return False, "hash-mismatch"
+    return True, h
+
+
+def impl_fetch(bid):
+    """(inside the jail) LocalArchive._downloadPackage (open, Tee, TarHelper._extract). -> None | failure reason"""
+    from bob.archive import LocalArchive, ARTIFACT_SUFFIX
+    from bob.errors import BobError
+    a = LocalArchive({"backend": "file", "path": "/arch"})
+    a.wantDownloadLocal(True)
+    try:
+        ret = a._downloadPackage(bid, ARTIFACT_SUFFIX, AUDIT, WS, [], WS)
+    except BobError as e:
+        return "BuildError"
+    except Exception as e:
+        return "exception:" + type(e).__name__
+    if not ret[0]:
+        return "not-downloaded"
+    return None
+
+
+def impl_check():
+    """(inside the jail) the builder's check of a downloaded package -> ("accepted", hash) | ("failed", reason)"""
+    from bob.errors import BobError
+    try:
+        ok, why = post_download_check(AUDIT, WS)
+    except BobError:
+        return "failed", "audit-unreadable"
+    except Exception as e:
+        return "failed", "check-exception:" + type(e).__name__
+    return ("accepted", why) if ok else ("failed", why)
+
+
+def make_artifact(jail, ents, bid):
+    """(enters the jail) build the tree, a real audit trail, upload through LocalArchive.
+    -> (tgz bytes, source snapshot below /src, source hash, audit bytes)"""
+    from bob.archive import LocalArchive, ARTIFACT_SUFFIX
+    from bob.utils import hashDirectory
+    from bob.audit import Audit
+    jail.enter()
+    try:
+        wipe_root()
+        os.umask(0o022)
+        os.mkdir("/src")
+        build_tree("/src/content", ents)
+        hsrc = hashDirectory("/src/content")
+        Audit.create(b"\x11" * 20, bid, hsrc).save("/src/audit.json.gz")
+        os.unlink("/src/audit.json.gz.pickle")
+        with open("/src/audit.json.gz", "rb") as f:
+            ab = f.read()
+        a = LocalArchive({"backend": "file", "path": "/arch"})
+        a.wantUploadLocal(True)
+        r = a._uploadPackage(bid, ARTIFACT_SUFFIX, "/src/audit.json.gz", "/src/content")
+        with open(archive_path(bid), "rb") as f:
+            tgz = f.read()
+        snap = snapshot("/src")
+        snap["/src"] = {"kind": "dir", "perm": 0o755, "ino": (0, 0), "nlink": 2, "mtime": 0, "uid": 0, "gid": 0}
+    finally:
+        jail.leave()
+    return tgz, snap, hsrc, ab, r
+
+
+def download_in_world(jail, tgz, bid):
+    """(enters the jail) fresh world + archive file; real download + check. -> verdict, before, after"""
+    jail.enter()
+    try:
+        world_setup()
+        os.makedirs(os.path.dirname(archive_path(bid)))
+        with open(archive_path(bid), "wb") as f:
+            f.write(tgz)
+        before = {p: e for p, e in snapshot().items() if not p.startswith("/arch")}
+        why = impl_fetch(bid)
+        after = {p: e for p, e in snapshot().items() if not p.startswith("/arch")}
+        verdict = ("failed", why) if why else impl_check()
+        try:
+            from bob.utils import hashDirectory
+            hdst = hashDirectory(WS) if os.path.isdir(WS) else None
+        except Exception:
+            hdst = None
+    finally:
+        jail.leave()
+    return verdict, before, after, hdst
+
+
+def strict_diff(src, dst, src_root, dst_root):
+    """beyond the hash: kinds, modes, data, link targets, hard link groups, ignored directories too"""
+    diffs = []
+    def rel(snap, root):
+        return {p[len(root):]: e for p, e in snap.items() if p.startswith(root + "/")}
+    a, b = rel(src, src_root), rel(dst, dst_root)
+    for p in sorted(set(a) | set(b)):
+        if p not in a or p not in b:
+            diffs.append(("presence", p)); continue
+        x, y = a[p], b[p]
+        if (x["kind"], x["perm"], x.get("data")) != (y["kind"], y["perm"], y.get("data")):
+            diffs.append(("node", p))
+    def groups(m):
+        g = {}
+        for p, e in m.items():
+            if e["kind"] == "reg":
+                g.setdefault(e["ino"], []).append(p)
+        return sorted(sorted(v) for v in g.values() if len(v) > 1)
+    if groups(a) != groups(b):
+        diffs.append(("hardlinks", ""))
+    return diffs
+
+
+def lossless_part(ctx, jail, n_real, n_model):
+    rng = ctx.rng
+    coq_cases = []
+    meta = []
+    fs0 = None
+    for k in range(n_real + n_model):
+        small = k < n_model
+        ents = gen_tree(rng, small)
+        bid = bytes(rng.getrandbits(8) for _ in range(20))
+        tgz, src, hsrc, ab, upl = make_artifact(jail, ents, bid)
+        verdict, before, after, hdst = download_in_world(jail, tgz, bid)
+        ctx.evaluated()
+        for p, kind, at in ents:
+            ctx.count("tree:" + kind)
+        ctx.count("lossless:" + verdict[0])
+        if len(ents) >= 3:
+            ctx.nontrivial(("tree", hashlib.sha1(tgz).hexdigest()))
+        desc = {"kind": "lossless", "entries": [[p, kind, {a: (base64.b64encode(v).decode() if isinstance(v, bytes) else v) for a, v in at.items()}] for p, kind, at in ents]}
+        ok = verdict[0] == "accepted" and hdst == hsrc
+        if ok:
+            audit_after = after.get(AUDIT, {}).get("data")
+            if audit_after != ab:
+                ok = False
+        if not ok:
+            ctx.violation("lossless-roundtrip:" + (verdict[1] if verdict[0] != "accepted" else "hash-or-audit-differs"),
+                          "pack+extract of a generated tree: verdict %r, source hash %s, extracted hash %s" % (
+                              verdict, hsrc.hex(), hdst.hex() if hdst else None), desc)
+            continue
+        sd = strict_diff(src, after, "/src/content", WS)
+        if sd:
+            ctx.count("lossless:beyond-hash-difference", 1)
+            ctx.note("tree equal by hash but not node by node: %r" % sd[:3])
+        if diff_outside(outside_view(before), outside_view(after)):
+            ctx.violation("outside-changed-by-benign-artifact", "benign extraction changed the outside", desc)
+        if len(ctx.cov["samples"]) < 6 and k < 2:
+            ctx.sample({"tree": [[p, kind] for p, kind, at in ents][:8], "source_hash": hsrc.hex(), "extracted_hash": hdst.hex()})
+        if not small:
+            continue
+        dec = decode_tgz(tgz)
+        if dec is None or not dec[2]:
+            ctx.tie_broken("lossless-decode", "real artifact not decodable")
+            continue
+        if fs0 is None:
+            fs0 = cfs(before)
+        n, d = counts(after)
+        inp = "(%s, fs0)" % cfs(src)
+        exp = "(Some %s, %s, (%s, %d, %d), %s)" % (cartifact(dec[0], dec[1], True), L.by(hsrc), clisting(after), n, d, L.by(hdst))
+        coq_cases.append((inp, exp))
+        meta.append(desc)
+    return coq_cases, meta, fs0
+
+
+def eval_lossless(ctx, coq_cases, meta, fs0):
+    if not coq_cases:
+        return
+    pre = PREAMBLE + "Definition fs0 : fsys := %s.\nDefinition AUDITP : path := %s.\nDefinition DEST : path := %s.\nDefinition FUELN : nat := %d%%nat.\n" % (
+        fs0, cpath(AUDIT), cpath(WS), FUEL) + SHA_PRE
+    # self-test of the SHA-1 used to run hash_dir
+    msgs = [b"", b"abc", bytes(range(200))]
+    bad, log = coq.run_cases(ctx, ["BobV.C08.Model"], "sha1", "eqb_str", [(L.by(m), L.by(hashlib.sha1(m).digest())) for m in msgs],
+                             preamble=pre, tag="sha")
+    if bad is None or bad:
+        ctx.tie_broken("sha1-selftest", log if bad is None else "SHA-1 of the case evaluator differs from hashlib")
+        return
+    bad, log = coq.run_cases(ctx, ["BobV.C08.Model"], "(fun i => i)", "check_lossless", coq_cases, preamble=pre, tag="loss", shard=4)
+    if bad is None:
+        ctx.tie_broken("C08 model evaluation failed (lossless)", log)
+        return
+    ctx.validated(len(coq_cases) - len(bad))
+    for i in bad[:5]:
+        ctx.tie_broken("lossless-correspondence (pack / hash_dir / extract of the real artifact)", meta[i])
+    if bad:
+        ctx.count("lossless:model-mismatch", len(bad))
+
+
+# ------------------------------------------------------------------ (C) corruption
+def recorded_hash(audit_bytes):
+    """independent reading of the result hash recorded in an audit trail (None: unreadable)"""
+    try:
+        tree = json.loads(gzip.decompress(audit_bytes).decode("utf8"))
+        return bytes.fromhex(tree["artifact"]["result-hash"])
+    except Exception:
+        return None
+
+
+def repack(dec, edit):
+    """re-pack a decoded artifact after a tampering edit -> tgz bytes, label"""
+    pax, members, _ = dec
+    members = [dict(m) for m in members]
+    label = edit(members)
+    newpax = "1"
+    fmt = tarfile.PAX_FORMAT
+    if label == "wrong-version":
+        newpax = "2"
+    elif label == "no-version":
+        newpax = None
+    elif label == "gnu-format":
+        fmt = tarfile.GNU_FORMAT
+        newpax = None
+    buf = io.BytesIO()
+    hdr = {} if newpax is None else {"bob-archive-vsn": newpax}
+    with gzip.GzipFile(fileobj=buf, mode="wb", mtime=0) as gz:
+        with tarfile.open(None, "w", fileobj=gz, format=fmt, pax_headers=hdr if fmt == tarfile.PAX_FORMAT else None) as tar:
+            for m in members:
+                ti = tarfile.TarInfo(m["name"])
+                ti.type = KINDS[m["kind"]]
+                ti.linkname = m.get("link", "")
+                ti.mode = m["mode"]
+                ti.mtime = 42
+                data = m.get("data", b"") if m["kind"] == "reg" else b""
+                ti.size = len(data)
+                if m["kind"] in DEVNUM:
+                    ti.devmajor, ti.devminor = m.get("dev", DEVNUM[m["kind"]])
+                tar.addfile(ti, io.BytesIO(data) if m["kind"] == "reg" else None)
+    return buf.getvalue(), label
+
+
+def tamper_edits(rng, other_audit):
+    def content(ms):
+        return [m for m in ms if m["name"].startswith("content/")]
+    def e_data(ms):
+        c = [m for m in content(ms) if m["kind"] == "reg"]
+        if not c:
+            ms.append({"name": "content/added", "kind": "reg", "link": "", "mode": 0o644, "data": b"x"}); return "add-file"
+        m = rng.choice(c); m["data"] = m["data"] + b"!" if rng.random() < 0.5 else m["data"][:-1] if m["data"] else b"!"
+        return "change-data"
+    def e_drop(ms):
+        c = content(ms)
+        if not c:
+            return e_data(ms)
+        victim = rng.choice(c)
+        ms[:] = [m for m in ms if not (m["name"] == victim["name"] or m["name"].startswith(victim["name"] + "/")
+                                       or (m["kind"] == "lnk" and m["link"] == victim["name"]))]
+        return "drop-entry"
+    def e_add(ms):
+        ms.append({"name": "content/zz-added", "kind": rng.choice(["reg", "dir", "sym"]), "link": "x", "mode": 0o644, "data": b"new"}); return "add-entry"
+    def e_mode(ms):
+        c = [m for m in content(ms) if m["kind"] in ("reg", "dir")]
+        if not c:
+            return e_add(ms)
+        m = rng.choice(c); m["mode"] ^= 0o100; return "change-mode"
+    def e_link(ms):
+        c = [m for m in content(ms) if m["kind"] == "sym"]
+        if not c:
+            return e_add(ms)
+        rng.choice(c)["link"] += "x"; return "change-symlink"
+    def e_rename(ms):
+        c = [m for m in content(ms) if m["kind"] in ("reg", "sym")]
+        if not c:
+            return e_add(ms)
+        rng.choice(c)["name"] += "~"; return "rename"
+    def e_noaudit(ms):
+        ms[:] = [m for m in ms if m["name"] != "meta/audit.json.gz"]; return "missing-audit"
+    def e_badaudit(ms):
+        for m in ms:
+            if m["name"] == "meta/audit.json.gz":
+                m["data"] = b"this is not gzip"
+        return "garbage-audit"
+    def e_otheraudit(ms):
+        for m in ms:
+            if m["name"] == "meta/audit.json.gz":
+                m["data"] = other_audit
+        return "foreign-audit"
+    def e_vsn(ms):
+        return "wrong-version"
+    def e_novsn(ms):
+        return "no-version"
+    def e_gnu(ms):
+        if any(len(os.fsencode(m["name"])) > 99 or len(os.fsencode(m.get("link", ""))) > 99 for m in ms):
+            return "wrong-version"
+        return "gnu-format"
+    def e_unknown(ms):
+        ms.append({"name": rng.choice(["evil", "content2/x", "meta/extra"]), "kind": "reg", "link": "", "mode": 0o644, "data": b"?"}); return "unknown-member"
+    def e_none(ms):
+        return "untampered-repack"
+    return [e_data, e_drop, e_add, e_mode, e_link, e_rename, e_noaudit, e_badaudit, e_otheraudit, e_vsn, e_novsn, e_gnu, e_unknown, e_none]
+
+
+def corruption_part(ctx, jail, n_art, n_trunc, n_flip, n_model):
+    """truncations, bit flips and tampered re-packs of real artifacts through LocalArchive download +
+    post-download check; never accepted with a tree that is not the recorded one"""
+    rng = ctx.rng
+    coq_cases = []
+    meta = []
+    fs0 = None
+    rec_table = {}
+    budget_model = n_model
+    other_audit = None
+    for ai in range(n_art):
+        ents = gen_tree(rng, True)
+        while len(ents) < 3:
+            ents = gen_tree(rng, True)
+        bid = bytes(rng.getrandbits(8) for _ in range(20))
+        tgz, src, hsrc, ab, _ = make_artifact(jail, ents, bid)
+        if other_audit is None:
+            jail.enter()
+            try:
+                from bob.audit import Audit
+                Audit.create(b"\x22" * 20, b"\x33" * 20, b"\x44" * 20).save("/other.json.gz")
+                with open("/other.json.gz", "rb") as f:
+                    other_audit = f.read()
+            finally:
+                jail.leave()
+        dec0 = decode_tgz(tgz)
+        variants = []
+        L_ = len(tgz)
+        if n_trunc >= L_:
+            lens = list(range(L_))
+        else:
+            lens = sorted(set([0, 1, 2, 9, 10, 11, 17, 18, 19, 20, L_ - 1, L_ - 2, L_ - 8, L_ - 9, L_ - 10] +
+                              [rng.randrange(L_) for _ in range(n_trunc)]))
+            lens = [x for x in lens if 0 <= x < L_]
+        for n in lens:
+            variants.append(("truncate", n, tgz[:n]))
+        for _ in range(n_flip):
+            pos = rng.randrange(L_); bit = rng.randrange(8)
+            b = bytearray(tgz); b[pos] ^= 1 << bit
+            variants.append(("bitflip", (pos, bit), bytes(b)))
+        for ed in tamper_edits(rng, other_audit):
+            data, label = repack(dec0, ed)
+            variants.append(("tamper:" + label, None, data))
+        variants.append(("original", None, tgz))
+        for kind, arg, data in variants:
+            verdict, before, after, hdst = download_in_world(jail, data, bid)
+            ctx.evaluated()
+            ctx.count("corrupt:%s:%s" % (kind.split(":")[0], verdict[0] + ("" if verdict[0] == "accepted" else ":" + verdict[1])))
+            if data != tgz:
+                ctx.nontrivial(("corrupt", hashlib.sha1(data).hexdigest()))
+            desc = {"kind": "corrupt", "what": kind, "arg": arg, "artifact": base64.b64encode(data).decode(), "bid": bid.hex(),
+                    "source_hash": hsrc.hex()}
+            if fs0 is None:
+                fs0 = cfs(before)
+            if verdict[0] == "accepted":
+                rec = recorded_hash(after.get(AUDIT, {}).get("data", b""))
+                if hdst is None or rec is None or hdst != rec:
+                    ctx.violation("accepted-with-unverified-content:" + kind.split(":")[0],
+                                  "%s of a real artifact was accepted although the tree hash %s differs from the recorded %s" % (
+                                      kind, hdst.hex() if hdst else None, rec.hex() if rec else None), desc)
+                elif kind.split(":")[0] in ("truncate", "bitflip", "original") and hdst != hsrc:
+                    ctx.violation("accepted-corrupt-stream:" + kind, "accepted tree differs from the packed one", desc)
+            elif kind == "original" or kind == "tamper:untampered-repack":
+                ctx.violation("intact-artifact-rejected", "an intact artifact was not accepted: %r" % (verdict,), desc)
+            if diff_outside(outside_view(before), outside_view(after)):
+                ctx.violation("outside-changed-by-corrupt-artifact", "download of a corrupt artifact changed the outside", desc)
+            # model: download on the decoded stream
+            if budget_model > 0 and (kind.startswith("tamper") or rng.random() < 0.15):
+                dec = decode_tgz(data)
+                if dec is None:
+                    art = "(@None artifact)"
+                else:
+                    art = "(Some %s)" % cartifact(dec[0], dec[1], dec[2])
+                    for m in dec[1]:
+                        if m["name"] == "meta/audit.json.gz" and m["kind"] == "reg":
+                            rec_table[m["data"]] = recorded_hash(m["data"])
+                coq_cases.append((art, "Accepted %s" % L.by(verdict[1]) if verdict[0] == "accepted" else "Failed"))
+                meta.append({k: v for k, v in desc.items() if k != "artifact"} | {"impl": list(verdict[:1]) + [verdict[1].hex() if isinstance(verdict[1], bytes) else verdict[1]]})
+                budget_model -= 1
+    return coq_cases, meta, fs0, rec_table
+
+
+def eval_corruption(ctx, coq_cases, meta, fs0, rec_table):
+    if not coq_cases:
+        return
+    rec = "fun ab => " + "".join("if eqb_str ab %s then %s else " % (L.by(k), "(Some %s)" % L.by(v) if v is not None else "(@None (list N))")
+                                 for k, v in rec_table.items()) + "(@None (list N))"
+    pre = PREAMBLE + "Definition fs0 : fsys := %s.\nDefinition AUDITP : path := %s.\nDefinition DEST : path := %s.\n" % (
+        fs0, cpath(AUDIT), cpath(WS)) + SHA_PRE.split("Definition mkind_eqb")[0] + """
+Definition recorded : list N -> option (list N) := %s.
+Definition verdict_eqb (a b : verdict) : bool :=
+  match a, b with Accepted x, Accepted y => eqb_str x y | Failed, Failed => true | _, _ => false end.
+""" % rec
+    bad, log = coq.run_cases(ctx, ["BobV.C08.Model"], "(fun a => snd (download sha1 recorded %d%%nat fs0 AUDITP DEST a))" % FUEL,
+                             "verdict_eqb", coq_cases, preamble=pre, tag="corr", shard=6)
+    if bad is None:
+        ctx.tie_broken("C08 model evaluation failed (download)", log)
+        return
+    ctx.validated(len(coq_cases) - len(bad))
+    for i in bad[:5]:
+        ctx.tie_broken("download-correspondence", meta[i])
+    if bad:
+        ctx.count("corrupt:model-mismatch", len(bad))
+
+
+# ------------------------------------------------------------------ (D) end to end through the builder
+def e2e_part(ctx, n_variants):
+    """bob build --download=forced against a local archive whose artifact was tampered with"""
+    rng = ctx.rng
+    d = core.scratch_dir("c08e")
+    env = dict(os.environ, PYTHONPATH=os.path.join(core.REPO, "pym"))
+    def bob(args, cwd):
+        return subprocess.run([sys.executable, os.path.join(core.REPO, "bob")] + args, cwd=cwd, env=env,
+                              stdout=subprocess.PIPE, stderr=subprocess.STDOUT, text=True, timeout=300)
+    try:
+        proj = os.path.join(d, "proj"); arch = os.path.join(d, "arch")
+        os.makedirs(os.path.join(proj, "recipes"))
+        with open(os.path.join(proj, "config.yaml"), "w") as f:
+            f.write('bobMinimumVersion: "0.25"\n')
+        with open(os.path.join(proj, "default.yaml"), "w") as f:
+            f.write("archive:\n  backend: file\n  path: %s\n" % arch)
+        with open(os.path.join(proj, "recipes", "root.yaml"), "w") as f:
+            f.write("root: True\npackageScript: |\n  mkdir -p d/e\n  echo hello > d/e/f\n  ln -s d/e/f l\n  ln d/e/f h\n  chmod 750 d\n")
+        r = bob(["build", "root", "--upload"], proj)
+        arts = glob.glob(os.path.join(arch, "*", "*", "*.tgz"))
+        if r.returncode != 0 or len(arts) != 1:
+            ctx.tie_broken("e2e-setup", r.stdout[-1500:])
+            return
+        art = arts[0]
+        orig = open(art, "rb").read()
+        dec0 = decode_tgz(orig)
+        edits = tamper_edits(rng, b"")
+        chosen = [edits[-1]] + rng.sample(edits[:-1], min(n_variants, len(edits) - 1))
+        variants = [("truncate", orig[:len(orig) * 2 // 3]), ("bitflip", bytes(b ^ (0x10 if i == len(orig) // 2 else 0) for i, b in enumerate(orig)))]
+        for ed in chosen:
+            data, label = repack(dec0, ed)
+            if label == "foreign-audit":
+                continue
+            variants.append((label, data))
+        rel = os.path.relpath(art, arch)
+        shutil.rmtree(os.path.join(proj, "work"), ignore_errors=True)
+        for fn in glob.glob(os.path.join(proj, ".bob-*")):
+            os.unlink(fn) if os.path.isfile(fn) else shutil.rmtree(fn)
+        def one(iv):
+            i, (label, data) = iv
+            pd = os.path.join(d, "v%d" % i)
+            shutil.copytree(proj, os.path.join(pd, "proj"), symlinks=True)
+            ad = os.path.join(pd, "arch", os.path.dirname(rel))
+            os.makedirs(ad)
+            with open(os.path.join(pd, "arch", rel), "wb") as f:
+                f.write(data)
+            with open(os.path.join(pd, "proj", "default.yaml"), "w") as f:
+                f.write("archive:\n  backend: file\n  path: %s\n" % os.path.join(pd, "arch"))
+            return label, bob(["build", "root", "--download=forced"], os.path.join(pd, "proj"))
+        from concurrent.futures import ThreadPoolExecutor
+        with ThreadPoolExecutor(max_workers=4) as ex:
+            results = list(ex.map(one, enumerate(variants)))
+        for label, r in results:
+            ctx.evaluated()
+            ctx.nontrivial(("e2e", label))
+            ok = r.returncode == 0
+            ctx.count("e2e:%s:%s" % (label, "built" if ok else "failed"))
+            if label == "untampered-repack":
+                if not ok:
+                    ctx.violation("intact-artifact-rejected", "bob build --download=forced failed on an intact artifact", {"kind": "e2e", "label": label, "log": r.stdout[-1500:]})
+            elif ok:
+                ctx.violation("builder-accepted-tampered-artifact:" + label,
+                              "bob build --download=forced succeeded with a tampered artifact (%s)" % label,
+                              {"kind": "e2e", "label": label, "log": r.stdout[-1500:]})
+    finally:
+        shutil.rmtree(d, ignore_errors=True)
+
+
 # ------------------------------------------------------------------ main
 def load_corpus():
     out = []
-    for p in sorted(glob.glob(os.path.join(core.VERIF, "corpus", "C08", "*.json"))):
+    for p in sorted(glob.glob(os.path.join(core.VERIF, "corpus", "C08", "*.json")),
+                    key=lambda x: (os.path.basename(x) != "f2_hardlink.json", x)):
         with open(p) as f:
             d = json.load(f)
         d["_file"] = os.path.basename(p)
@@ -670,6 +1328,11 @@ def preload():
         shutil.rmtree(d, ignore_errors=True)
 
 
+def scaled(n):
+    """C08_SCALE=0.2 shrinks the budgets (used for the mutation self-test only)"""
+    return max(1, int(n * float(os.environ.get("C08_SCALE", "1"))))
+
+
 def run(ctx):
     rng = ctx.rng
     ctx.rule = ("(A) hostile member lists from attack templates (symlink-then-write, hard links to/through the outside, '..', absolute, "
@@ -677,11 +1340,25 @@ def run(ctx):
                 "supported file kinds; (C) every/sampled truncation and bit flips of real artifacts; a case is non-trivial when the "
                 "artifact has >= 2 members / the tree >= 3 entries / the corruption changes the byte stream; distinct by content")
     ctx.assumptions += [
-        "tar and gzip codecs are CPython's (modelled at the level of decoded member lists); bit-flip detection before the hash check is zlib's CRC",
-        "kernel path resolution, open/link/symlink/mkdir/chmod semantics as modelled in C08/Model.v (MAXSYMLINKS, owner and time stamps not modelled); validated against the real kernel on every generated case",
-        "confinement theorem assumes that no symbolic link exists outside workspace and audit file before extraction (outside links that lead back into the workspace are not excluded by the code)",
-        "runs as root inside a chroot jail; a regular member written over an extracted fifo blocks in open() and is not executed",
-        "SHA-1 is a parameter H of hash_dir; no injectivity assumed",
+        "proved (unbounded, Coq): extraction of any artifact is confined to workspace + audit file (extract_confined_partial, "
+        "accepted_extraction_confined, member_extraction_confined); kernel resolution agrees with realpath; acceptance implies version 1, "
+        "only known members, clean end of stream, audit present and recorded hash = hash of the extracted tree; pack followed by extract "
+        "reproduces the tree as a path->node map and the audit bytes (pack_extract_roundtrip_partial)",
+        "not proved, exercised by correspondence and oracle only: equality of hash_dir after a round trip (the proof stops at equal "
+        "path->node maps); confinement of a REJECTED extraction in the corner where tarfile's makelink fall-back re-creates a parent directory "
+        "(corpus/C08/relink_through_itself.json)",
+        "tar and gzip codecs are CPython's (the model starts from decoded member lists). Bit flips in member data are NOT caught by zlib's CRC "
+        "on this path (tarfile stops reading at the end-of-archive marker); the guard is the post-download hash check of builder.py, which is "
+        "driven end to end with `bob build --download=forced` on tampered artifacts and re-stated in the harness for the in-process volume",
+        "kernel path resolution, open/link/symlink/mkdir/mkfifo/mknod/chmod semantics, os.makedirs, os.path.realpath and "
+        "tarfile._extract_member/makelink (incl. its fall-back) as modelled in C08/Model.v (MAXSYMLINKS, owner, time stamps, umask other than "
+        "022 not modelled); validated against the real kernel and CPython on every generated case (whole-jail listing compared)",
+        "confinement theorems assume that no symbolic link exists outside workspace and audit file before extraction and that the ancestors of "
+        "the workspace are directories (a pre-existing outside link that leads back into the workspace is not excluded by the code)",
+        "runs as root inside a chroot jail under /var/tmp; a regular member written over an extracted fifo blocks in open() and is not executed; "
+        "sockets are not packed by tarfile (not part of the property text)",
+        "SHA-1 is a parameter H of hash_dir (no injectivity assumed); for the correspondence it is instantiated with a Gallina SHA-1 that is "
+        "self-tested against hashlib on every run",
     ]
     if os.geteuid() != 0:
         ctx.tie_broken("harness", "C08 needs root (chroot jail, device nodes)")
@@ -690,25 +1367,73 @@ def run(ctx):
     if ctx.replay:
         return replay(ctx)
     jail = Jail()
+    T = [time.time()]
+    def lap(name):
+        T.append(time.time())
+        ctx.count("seconds:" + name, int(T[-1] - T[-2]))
     try:
         corpus = [unjson_case(c["case"]) for c in load_corpus() if c.get("kind") == "hostile"]
-        n = ctx.n(900, 12000)
+        n = scaled(ctx.n(500, 12000))
         cases = corpus + [gen_hostile(rng) for _ in range(n)]
         cc, meta, fs0 = hostile_part(ctx, jail, cases)
+        lap("hostile-impl")
+        lc, lmeta, lfs0 = lossless_part(ctx, jail, scaled(ctx.n(100, 2500)), scaled(ctx.n(12, 300)))
+        lap("lossless-impl")
+        kc, kmeta, kfs0, ktab = corruption_part(ctx, jail, ctx.n(2, 6), scaled(ctx.n(40, 10 ** 9)), scaled(ctx.n(60, 1500)), scaled(ctx.n(24, 500)))
+        lap("corruption-impl")
     finally:
         jail.close()
+    e2e_part(ctx, ctx.n(3, 13))
+    lap("e2e")
     eval_hostile(ctx, cc, meta, fs0, "host")
+    lap("hostile-model")
+    eval_lossless(ctx, lc, lmeta, lfs0)
+    lap("lossless-model")
+    eval_corruption(ctx, kc, kmeta, kfs0, ktab)
+    lap("corruption-model")
 
 
 def replay(ctx):
     with open(ctx.replay) as f:
         d = json.load(f)
-    c = d.get("case", d)
-    if c.get("kind") == "hostile":
+    c = d["case"] if "property" in d else d
+    kind = c.get("kind")
+    if kind == "hostile":
         jail = Jail()
         try:
             cc, meta, fs0 = hostile_part(ctx, jail, [unjson_case(c["case"])])
         finally:
             jail.close()
-        print("replayed hostile case: %s" % (meta[0] if meta else "not modelled"))
+        print("replayed hostile case: %s" % (json.dumps(meta[0]) if meta else "not modelled"))
+        print("violations: %r" % [(v["signature"], v["what"]) for v in ctx.violations])
         eval_hostile(ctx, cc, meta, fs0, "replay")
+    elif kind == "corrupt":
+        jail = Jail()
+        try:
+            data = base64.b64decode(c["artifact"])
+            bid = bytes.fromhex(c["bid"])
+            verdict, before, after, hdst = download_in_world(jail, data, bid)
+        finally:
+            jail.close()
+        ctx.evaluated()
+        rec = recorded_hash(after.get(AUDIT, {}).get("data", b""))
+        print("replayed %s: verdict %r, extracted hash %s, recorded %s" % (c.get("what"), verdict, hdst.hex() if hdst else None, rec.hex() if rec else None))
+        if verdict[0] == "accepted" and (hdst is None or rec is None or hdst != rec):
+            ctx.violation("accepted-with-unverified-content:" + str(c.get("what", "")).split(":")[0], "replayed", c)
+        if diff_outside(outside_view(before), outside_view(after)):
+            ctx.violation("outside-changed-by-corrupt-artifact", "replayed", c)
+    elif kind == "lossless":
+        ents = [(p, k, {a: (base64.b64decode(v) if a == "data" else v) for a, v in at.items()}) for p, k, at in c["entries"]]
+        jail = Jail()
+        try:
+            bid = b"\x55" * 20
+            tgz, src, hsrc, ab, _ = make_artifact(jail, ents, bid)
+            verdict, before, after, hdst = download_in_world(jail, tgz, bid)
+        finally:
+            jail.close()
+        ctx.evaluated()
+        print("replayed tree: verdict %r, source hash %s, extracted hash %s" % (verdict, hsrc.hex(), hdst.hex() if hdst else None))
+        if verdict[0] != "accepted" or hdst != hsrc or after.get(AUDIT, {}).get("data") != ab:
+            ctx.violation("lossless-roundtrip:replayed", "replayed", c)
+    else:
+        print("replay of %r cases: run ./check C08 quick" % kind)
